@@ -168,6 +168,19 @@ func (e *Engine) renderScripts(obls []*Obligation, axioms, assumes, assumePCs []
 				o.assertsAbs = abs
 			}
 		}
+		// piecewise variant: an equation between two concatenations with the
+		// same number of parts is implied by the part-wise equations.  Proving
+		// those is a proof of the goal; failing to prove them says nothing and
+		// the whole equation is tried as usual.
+		if !o.Cover && o.Goal.Op == "=" && o.Goal.Args[0].Sort == StringS {
+			pairs := alignParts(concatParts(o.Goal.Args[0]), concatParts(o.Goal.Args[1]))
+			if len(pairs) > 1 {
+				for _, pr := range pairs {
+					piece := append(append([]*Term{}, fullAsserts[:len(fullAsserts)-1]...), Not(Eq(pr[0], pr[1])))
+					o.pieces = append(o.pieces, pruneAsserts(piece, nb))
+				}
+			}
+		}
 		// quantifier-free variant: used to look for candidate models when the
 		// full query is undecided (a model of fewer assumptions may be spurious:
 		// it only counts once it replays on the real code), and to cross-check
@@ -230,6 +243,32 @@ func (e *Engine) runScripts(obls []*Obligation, dir string, timeoutS int, pool c
 					doneAbs = true
 				}
 			}
+			if !doneAbs && len(o.pieces) > 0 {
+				allOK := true
+				secs := 0.0
+				ctxP, cancelP := context.WithCancel(context.Background())
+				resP := make(chan solveResult, len(o.pieces))
+				for k, piece := range o.pieces {
+					fp := filepath.Join(dir, fmt.Sprintf("%s.piece%d.smt2", name, k))
+					os.WriteFile(fp, []byte("; part-wise variant of "+o.ID+"\n"+Script(piece, false, nil)), 0o644)
+					go func() { resP <- runPortfolioCtx(ctxP, fp, 10, false) }()
+				}
+				for range o.pieces {
+					rp := <-resP
+					if rp.secs > secs {
+						secs = rp.secs
+					}
+					if rp.status != "unsat" {
+						allOK = false
+						cancelP()
+					}
+				}
+				cancelP()
+				if allOK {
+					r = solveResult{status: "unsat", solver: "portfolio(parts)", secs: secs}
+					doneAbs = true
+				}
+			}
 			if !doneAbs {
 				if o.assertsFull != nil {
 					// the pruned and the unpruned query race; "unsat" of either is a proof
@@ -277,7 +316,7 @@ func (e *Engine) runScripts(obls []*Obligation, dir string, timeoutS int, pool c
 			}
 			o.smtFile = f
 			o.allSolvers = r.all
-			o.asserts, o.assertsFull, o.assertsAbs, o.assertsQF = nil, nil, nil, nil
+			o.asserts, o.assertsFull, o.assertsAbs, o.assertsQF, o.pieces = nil, nil, nil, nil, nil
 			mu.Unlock()
 		}()
 	}
@@ -476,4 +515,73 @@ func connecting(sym string) bool {
 		return false
 	}
 	return true
+}
+
+// alignParts splits two part lists at the parts they share (longest common
+// subsequence of identical terms) and pairs up what lies between; segments of
+// equal length are paired part by part.
+func alignParts(pa, pb []*Term) [][2]*Term {
+	n, m := len(pa), len(pb)
+	if n*m > 250000 {
+		return nil
+	}
+	l := make([][]int, n+1)
+	for i := range l {
+		l[i] = make([]int, m+1)
+	}
+	for i := n - 1; i >= 0; i-- {
+		for j := m - 1; j >= 0; j-- {
+			if pa[i] == pb[j] {
+				l[i][j] = l[i+1][j+1] + 1
+			} else if l[i+1][j] >= l[i][j+1] {
+				l[i][j] = l[i+1][j]
+			} else {
+				l[i][j] = l[i][j+1]
+			}
+		}
+	}
+	var out [][2]*Term
+	seg := func(sa, sb []*Term) {
+		if len(sa) == 0 && len(sb) == 0 {
+			return
+		}
+		if len(sa) == len(sb) {
+			for k := range sa {
+				if sa[k] != sb[k] {
+					out = append(out, [2]*Term{sa[k], sb[k]})
+				}
+			}
+			return
+		}
+		// choices on the same condition correspond to each other
+		same := func(x, y *Term) bool {
+			return x.Op == "ite" && y.Op == "ite" && x.Args[0] == y.Args[0]
+		}
+		for len(sa) > 0 && len(sb) > 0 && same(sa[len(sa)-1], sb[len(sb)-1]) {
+			out = append(out, [2]*Term{sa[len(sa)-1], sb[len(sb)-1]})
+			sa, sb = sa[:len(sa)-1], sb[:len(sb)-1]
+		}
+		for len(sa) > 0 && len(sb) > 0 && same(sa[0], sb[0]) {
+			out = append(out, [2]*Term{sa[0], sb[0]})
+			sa, sb = sa[1:], sb[1:]
+		}
+		if len(sa) > 0 || len(sb) > 0 {
+			out = append(out, [2]*Term{Concat(sa...), Concat(sb...)})
+		}
+	}
+	i, j, si, sj := 0, 0, 0, 0
+	for i < n && j < m {
+		if pa[i] == pb[j] {
+			seg(pa[si:i], pb[sj:j])
+			i++
+			j++
+			si, sj = i, j
+		} else if l[i+1][j] >= l[i][j+1] {
+			i++
+		} else {
+			j++
+		}
+	}
+	seg(pa[si:], pb[sj:])
+	return out
 }
